@@ -11,6 +11,7 @@ from .instrument import Namer
 from .specdesc import terms_list
 
 STATS = {
+    "s2": (("k1", "a"), ("k2", "b")),
     "s0": (),
     "s1": (("k1", "a"),),
     "s2": (("k1", "a"), ("k2", "b")),
@@ -24,11 +25,12 @@ def fixture_classes(tier: str, seed: int):
     """(class, strategy) pairs to derive forms from."""
     from .universes import words as W
 
-    pats_ab = [["aa"], ["ab"], ["aba", "bb"], ["aa", "ab"], ["aa", "aaa"], ["b", "aa"], ["aab", "bba"], []]
+    pats_ab = [["aa"], ["ab"], ["ba"], ["aba", "bb"], ["aa", "ab"], ["aa", "aaa"], ["b", "aa"], ["aab", "bba"], []]
     prefixes = ["", "a", "b", "ab", "ba", "aab", "bb", "bba", "abba", "bab"]
-    stats = ["s0", "s1", "s2m", "s3d", "s2x"] if tier == "thorough" else ["s0", "s2m", "s3d"]
+    stats = ["s0", "s1", "s2", "s2m", "s3d", "s2x"] if tier == "thorough" else ["s0", "s2", "s2m", "s3d"]
     out = []
-    strategies = [W.Expand(), W.RemoveFront(), W.SplitFront(), W.Swap(), W.MinimizePatterns(), W.MergeStats()]
+    strategies = [W.Expand(), W.ExpandTrim(), W.RemoveFront(), W.RemoveFrontRename(), W.SplitFront(), W.SplitMonotone(), W.Swap(),
+                  W.MinimizePatterns(), W.MergeStats(), W.RenameStats()]
     for pats in pats_ab:
         for pre in prefixes:
             for st in stats:
@@ -43,18 +45,29 @@ def fixture_classes(tier: str, seed: int):
             c = W.WC(pre, pats, "abc", False, STATS["s1"])
             if c.is_empty():
                 continue
-            for s in (W.Expand(), W.RemoveFront(), W.SplitFront()):
+            for s in (W.Expand(), W.RemoveFront(), W.SplitFront(), W.Swap(), W.Cycle()):
                 if s.decomposition_function(c) is not None:
                     out.append((c, s))
     rnd = random.Random(seed + 9)
     rnd.shuffle(out)
     if tier == "quick":
-        out = out[:260]
+        out = out[:420]
     return out
 
 
-def derived_forms(c, s) -> List[Tuple[str, Any]]:
-    """All rule forms derived from rule s(c) that the library can build."""
+LEGIT = (AssertionError, NotImplementedError)  # the library's ways of saying "this form does not exist"
+
+
+def derived_forms(c, s, problems=None) -> List[Tuple[str, Any]]:
+    """All rule forms derived from rule s(c) that the library can build.  An exception other than the library's
+    documented refusals while building a form is reported (appended to `problems`), never swallowed."""
+    if problems is None:
+        problems = []
+
+    def note(what, e):
+        if not isinstance(e, LEGIT):
+            problems.append("%s: %s: %s" % (what, type(e).__name__, str(e)[:100]))
+
     from .universes import words as W
     from comb_spec_searcher.strategies.rule import EquivalencePathRule
 
@@ -71,22 +84,23 @@ def derived_forms(c, s) -> List[Tuple[str, Any]]:
             forms.append(("equiv", eq))
             try:
                 forms.append(("equiv-reverse", eq.to_reverse_rule(0)))
-            except (AssertionError, NotImplementedError):
-                pass
-    except Exception:
+            except Exception as e:
+                note("equiv-reverse", e)
+    except Exception as e:
+        note("equiv", e)
         eq = None
     if eq is not None:
         # chains: eq followed by another equivalence on its child, and by a reverse equivalence
         c1 = eq.children[0]
-        for s2 in (W.MinimizePatterns(), W.MergeStats(), W.Swap()):
+        for s2 in (W.MinimizePatterns(), W.MergeStats(), W.Swap(), W.Cycle(), W.RenameStats()):
             if s2.decomposition_function(c1) is None or c1.is_empty():
                 continue
             try:
                 r2 = s2(c1)
                 if r2.is_equivalence():
                     forms.append(("path:%s" % type(s2).__name__, EquivalencePathRule([eq, r2.to_equivalence_rule()])))
-            except (AssertionError, NotImplementedError, Exception):
-                pass
+            except Exception as e:
+                note("path:%s" % type(s2).__name__, e)
         sw = W.Swap()
         if sw.decomposition_function(c1) is not None and not c1.is_empty():
             c2 = sw.decomposition_function(c1)[0]
@@ -94,8 +108,18 @@ def derived_forms(c, s) -> List[Tuple[str, Any]]:
                 back = sw(c2).to_equivalence_rule().to_reverse_rule(0)  # c1 -> c2 by the reverse of swap(c2) = c1
                 if back.comb_class == c1:
                     forms.append(("path:reverse-swap", EquivalencePathRule([eq, back])))
-            except (AssertionError, NotImplementedError, Exception):
-                pass
+            except Exception as e:
+                note("path:reverse-swap", e)
+        # a path through the reverse of a renaming: c1 -> c2 where RenameStats(c2) = c1
+        if c1.stats and all(n.startswith("k") and n[1:].isdigit() for n, _ in c1.stats) and not c1.is_empty():
+            c2 = c1.with_(stats=[("k%d" % (int(n[1:]) + 1), l) for n, l in c1.stats])
+            try:
+                r3 = W.RenameStats()(c2)
+                if r3.children[0] == c1:
+                    back = r3.to_equivalence_rule().to_reverse_rule(0)
+                    forms.append(("path:reverse-rename", EquivalencePathRule([eq, back])))
+            except Exception as e:
+                note("path:reverse-rename", e)
     return forms
 
 
@@ -109,14 +133,21 @@ class Lab:
         self.reqs: List[list] = []
         self.selfreqs: List[int] = []
         self.provided: Dict[Tuple[str, int], list] = {}
+        self.cache: Dict[Tuple[str, int], Any] = {}
 
     # -- counting ------------------------------------------------------------------------
     def _provider(self, idx, child):
+        # like the library's own term caches, a provider hands out the *same* Counter object every time it is asked
+        # for (child, m); what it handed out is remembered (a copy) so that a rule that modifies the enumeration it
+        # was given is noticed
         def get(m):
             self.reqs.append([idx, int(m)])
-            t = child.get_terms(m) if m >= 0 else Counter()
-            self.provided[(self.namer(child), int(m))] = terms_list(t)
-            return t
+            key = (self.namer(child), int(m))
+            if key not in self.cache:
+                t = child.get_terms(m) if m >= 0 else Counter()
+                self.cache[key] = t
+                self.provided[key] = terms_list(t)
+            return self.cache[key]
 
         return get
 
@@ -163,6 +194,7 @@ class Lab:
         cons.get_terms = orig_cons_terms
         for (c, m), t in sorted(self.provided.items()):
             self.events.append({"op": "provided", "c": c, "n": m, "terms": t})
+            self.events.append({"op": "kept", "form": self.form_id, "c": c, "n": m, "terms": terms_list(self.cache[(c, m)])})
 
 
 def word_ints(c, w):
@@ -180,20 +212,31 @@ def lab_job(args):
     s = getattr(W, sname)()
     namer = Namer("c")
     events = []
-    forms = derived_forms(c, s)
+    problems: List[str] = []
+    try:
+        forms = derived_forms(c, s, problems)
+    except Exception as e:
+        forms = []
+        problems.append("building the rule: %s: %s" % (type(e).__name__, str(e)[:100]))
     max_n = 6 if len(alphabet) == 2 else 5
     for fid, rule in forms:
-        lab = Lab(fid, rule, namer)
-        if "count" in what:
-            lab.count(max_n)
-        events += lab.events
-        if "objects" in what:
-            fresh = dict(derived_forms(c, s))[fid]
-            events += lab_objects(fid, fresh, namer, min(max_n, 5))
-            events += lab_maps(fid, fresh, namer, min(max_n, 5))
-        if "draws" in what:
-            fresh = dict(derived_forms(c, s))[fid]
-            events += lab_draws(fid, fresh, namer, min(max_n, 5))
+        try:
+            lab = Lab(fid, rule, namer)
+            if "count" in what:
+                lab.count(max_n)
+            events += lab.events
+            if "objects" in what:
+                fresh = dict(derived_forms(c, s))[fid]
+                events += lab_objects(fid, fresh, namer, min(max_n, 5))
+                events += lab_maps(fid, fresh, namer, min(max_n, 5))
+            if "draws" in what:
+                fresh = dict(derived_forms(c, s))[fid]
+                events += lab_draws(fid, fresh, namer, min(max_n, 5))
+        except Exception as e:
+            problems.append("%s: %s: %s" % (fid, type(e).__name__, str(e)[:100]))
+    for pr in problems:
+        # an unexpected exception while building or driving a rule form: reported as a failed computation of that form
+        events.append({"op": "formterms", "form": pr.split(":")[0], "c": namer(c), "n": 0, "terms": [[[-7], 1]], "error": pr})
     classes = {n: cl.desc() for cl, n in namer.names.items()}
     tid = "%s|%s|%s|%s|%s" % (prefix or "e", ",".join(patterns), "".join(alphabet), len(stats), sname)
     return {"tid": tid, "classes": classes, "events": events, "forms": [f for f, _ in forms]}
@@ -268,21 +311,6 @@ def lab_maps(fid, rule, namer, max_n) -> List[dict]:
 # ---------------------------------------------------------------------------------------
 # sampling (C08)
 
-class _FixedRandom:
-    """random source returning a scripted value for randint and the first element for choice"""
-
-    def __init__(self):
-        self.r = 1
-        self.calls = 0
-
-    def randint(self, a, b):
-        self.calls += 1
-        return self.r
-
-    def choice(self, seq):
-        return list(seq)[0]
-
-
 def lab_draws(fid, rule, namer, max_n, max_count=80) -> List[dict]:
     """random_sample_object_of_size with the random source enumerated: every r in 1..N."""
     import comb_spec_searcher.strategies.constructor.cartesian as cart
@@ -311,9 +339,7 @@ def lab_draws(fid, rule, namer, max_n, max_count=80) -> List[dict]:
 
     rule.subrecs = tuple(mk_rec(i, ch) for i, ch in enumerate(rule.children))
     rule.subsamplers = tuple(mk_sampler(i, ch) for i, ch in enumerate(rule.children))
-    fixed = _FixedRandom()
     old = (disj.randint, cart.random, rulemod.random)
-    disj.randint, cart.random, rulemod.random = fixed.randint, fixed, fixed
     try:
         for n in range(max_n + 1):
             try:
@@ -326,20 +352,23 @@ def lab_draws(fid, rule, namer, max_n, max_count=80) -> List[dict]:
                 params = dict(zip(names, p))
                 branches, sel = [], []
                 failed = None
-                for r in range(1, cnt + 1):
-                    fixed.r = r
+
+                def one(dec):
+                    # the random source is an enumerator that honours the range the code asks for
+                    disj.randint, cart.random, rulemod.random = dec.randint, dec, dec
                     del record[:]
-                    try:
-                        rule.random_sample_object_of_size(n, **params)
-                    except NotImplementedError:
-                        return events
-                    except Exception as e:
-                        failed = type(e).__name__
-                        break
-                    b = list(record)
-                    if b not in branches:
-                        branches.append(b)
-                    sel.append(branches.index(b))
+                    rule.random_sample_object_of_size(n, **params)
+                    return list(record)
+
+                try:
+                    for _script, b in all_runs(one, limit=4 * max_count):
+                        if b not in branches:
+                            branches.append(b)
+                        sel.append(branches.index(b))
+                except NotImplementedError:
+                    return events
+                except Exception as e:
+                    failed = type(e).__name__
                 ev = {"op": "draw", "form": fid, "c": namer(parent), "n": n, "params": [int(x) for x in p], "count": int(cnt),
                       "sel": sel, "branches": branches}
                 if failed:
